@@ -286,10 +286,11 @@ open WebPkg.Http
 
 def hContentEncoding : Bytes := [67, 111, 110, 116, 101, 110, 116, 45, 69, 110, 99, 111, 100, 105, 110, 103]   -- "Content-Encoding"
 
-/-- `Exchange.MiEncodePayload(recordSize)` (recordSize ≥ 1); `none` = the digest header is already present -/
+/-- `Exchange.MiEncodePayload(recordSize)` (recordSize ≥ 1); `none` = the digest header is already present
+    (presence of the field, even with an empty value: fix F14) -/
 def miEncodePayload (H : Bytes → Bytes) (e : Exchange) (rs : Nat) : Option Exchange :=
   let enc := e.version.mice
-  if get e.respHeaders enc.digestHeaderName ≠ [] then none
+  if values e.respHeaders enc.digestHeaderName ≠ [] then none
   else
     let (stream, digest) := Mice.encode H enc e.payload rs
     some { e with payload := stream,
